@@ -1,469 +1,322 @@
-import LocustModel.Query.Merge
+import LocustModel.Lemmas.C04Merge
+import LocustModel.Lemmas.C04Bits
+import LocustModel.Lemmas.C04Array
+import LocustModel.Lemmas.C04Tree
+import LocustModel.Lemmas.C04Groups
+import LocustModel.Lemmas.C04Spec
 /-
-  C04 — aggregates per distinct group, once, over all rows.
-  Property theorems about the cross-partition merge of grouped partial results
-  (merge_deduplicate → MergeOp list → merge_aggregate / merge_drop).
+  C04 — aggregates are computed per distinct group, once, over all rows.   PROPERTY THEOREMS.
+
+  Models: Query/Merge.lean (merge_deduplicate / merge_drop / merge_aggregate), Query/GroupMerge.lean (partition,
+  subpartition, merge_deduplicate_partitioned, batch_merging::combine, merge trees), Query/Group.lean (planner
+  arithmetic of compile_grouping_key / try_bitpacking, FuseIntNulls / UnfuseIntNulls, Aggregate / AggregateNullable /
+  CheckedAggregate, Exists, NonzeroIndices, Compact, BitShiftLeftAdd / BitUnpack).
+  Exact (sentinel-free) specification objects: `xgroup` (ascending distinct keys, each once, aggregate over exactly the
+  inputs of the group), `xmerge` / `xunion` (union of partial results), Lemmas/C04Tree.lean, Lemmas/C04Groups.lean.
+
+  Where the real code violates the full statement (open findings `sum-sentinel`, `groupby-null-key-order`,
+  `count-null-group`) the statement is kept as a `def …_statement : Prop`, proved under the explicit extra hypothesis
+  (`…_partial`) and refuted on the model with the witness that also fails on the real code (`…_refuted`).
 -/
 namespace LM.C04
-open LM LM.Merge
+open LM LM.Merge LM.Group LM.GroupMerge LM.C04L LM.Sql LM.GroupSpec
 
-/-- Specification: merge two key-sorted association lists (group key ↦ partial aggregate),
-    combining the values of equal keys. This is "group by over the union of the rows". -/
-def specMerge (op : Agg) : List (Int × Int) → List (Int × Int) → Except MergeErr (List (Int × Int))
-  | [], r => .ok r
-  | l, [] => .ok l
-  | (k1, v1) :: l, (k2, v2) :: r =>
-      if k1 < k2 then
-        match specMerge op l ((k2, v2) :: r) with
-        | .ok t => .ok ((k1, v1) :: t) | .error e => .error e
-      else if k2 < k1 then
-        match specMerge op ((k1, v1) :: l) r with
-        | .ok t => .ok ((k2, v2) :: t) | .error e => .error e
-      else
-        match combine op v1 v2 with
-        | .error e => .error e
-        | .ok v => match specMerge op l r with
-          | .ok t => .ok ((k1, v) :: t) | .error e => .error e
+/-! ### 0. what the specification `specGroupBy` (Query/GroupSpec.lean) says, for tables of any size
+
+  `specGroupBy` maps every group of `groupRows keys kept` to one output row (`rowsOf`), `kept` being exactly the rows
+  for which the WHERE clause is true (C03_spec_filter_exact).  The three theorems below are the property text:
+  one group per distinct combination, each exactly once, computed over exactly the rows of that group. -/
+
+/-- each combination of the plain select items forms exactly ONE group -/
+theorem C04_spec_groups_once (keys : List Nat) (rows : List Row) : ((groupRows keys rows).map (·.1)).Nodup :=
+  (groupRows_inv keys rows).1
+
+/-- EVERY combination that occurs among the rows (NULL included, as a value of its own) has its group -/
+theorem C04_spec_groups_complete (keys : List Nat) (rows : List Row) (r : Row) (hr : r ∈ rows) :
+    keyOf keys r ∈ (groupRows keys rows).map (·.1) := (groupRows_inv keys rows).2.1 r hr
+
+/-- a group consists of EXACTLY the rows with its key (in table order) and is never empty; the aggregates of its
+    output row are `aggCell` over these rows, which drops NULL inputs -/
+theorem C04_spec_group_exact (keys : List Nat) (rows : List Row) (g : List Val × List Row)
+    (hg : g ∈ groupRows keys rows) :
+    g.2 = rows.filter (fun r => keyOf keys r = g.1) ∧ g.2 ≠ [] := (groupRows_inv keys rows).2.2 g hg
+
+example : groupRows [0] [[.int 2, .int 5], [.null, .int 1], [.int 2, .null]] =
+    [([.int 2], [[.int 2, .int 5], [.int 2, .null]]), ([.null], [[.null, .int 1]])] := by decide
+example : aggCell ⟨.sum, 1⟩ [[.int 2, .int 5], [.int 2, .null]] = .ok (.int 5) := by
+  simp [aggCell, colCells, ints?, aggInts, inI64, I64_MIN, I64_MAX]
+example : aggCell ⟨.count, 1⟩ [[.int 2, .int 5], [.int 2, .null]] = .ok (.int 1) := by
+  simp [aggCell, colCells]
+
+/-! ### A. the two-way merge of partial results (merge_deduplicate → ops → merge_aggregate / merge_drop) -/
 
 /-- No group is invented: every key of the merged result is a key of one of the inputs. -/
 theorem C04_dedup_sound (last : Option Int) (l r : List Int) (x : Int) :
-    x ∈ (mergeDedup false last l r).1 → x ∈ l ∨ x ∈ r := by
-  fun_induction mergeDedup false last l r <;> simp_all <;> grind
+    x ∈ (mergeDedup false last l r).1 → x ∈ l ∨ x ∈ r := dedup_sound last l r x
 
-/-- No group is lost: every key of either input is in the result, or is the key that the previous
-    step already emitted (`last`) and is being merged into. -/
+/-- No group is lost: every key of either input is in the result, or is the key the previous step emitted. -/
 theorem C04_dedup_complete (last : Option Int) (l r : List Int) (x : Int) :
-    x ∈ l ∨ x ∈ r → x ∈ (mergeDedup false last l r).1 ∨ last = some x := by
-  fun_induction mergeDedup false last l r <;> simp_all <;> grind
+    x ∈ l ∨ x ∈ r → x ∈ (mergeDedup false last l r).1 ∨ last = some x := dedup_complete last l r x
 
-theorem mergeDrop_left_tail {α : Type} (l r : List α) :
-    mergeDrop (l.map fun _ => MergeOp.takeLeft) l r = some l := by
-  induction l with
-  | nil => simp [mergeDrop]
-  | cons a l ih => simp [mergeDrop, ih]
-
-theorem mergeDrop_right_tail {α : Type} (l r : List α) :
-    mergeDrop (r.map fun _ => MergeOp.takeRight) l r = some r := by
-  induction r with
-  | nil => simp [mergeDrop]
-  | cons b r ih => simp [mergeDrop, ih]
-
-/-- Replaying the ops with `merge_drop` on the key columns reproduces the deduplicated keys, so the ops
-    are a well-formed script for both inputs (never index out of bounds). -/
+/-- The ops are a well-formed script for both inputs: replaying them with merge_drop reproduces the keys. -/
 theorem C04_merge_drop_replays (last : Option Int) (l r : List Int) :
-    mergeDrop (mergeDedup false last l r).2 l r = some (mergeDedup false last l r).1 := by
-  fun_induction mergeDedup false last l r <;>
-    simp_all [mergeDrop, mergeDrop_left_tail, mergeDrop_right_tail]
+    mergeDrop (mergeDedup false last l r).2 l r = some (mergeDedup false last l r).1 := merge_drop_replays last l r
 
-/-! ### Value-level specification, in lockstep over keys and partial aggregates -/
-
-/-- Keys of the union of two strictly ascending key lists. -/
-def specKeys : List Int → List Int → List Int
-  | [], kr => kr
-  | kl, [] => kl
-  | k1 :: kl, k2 :: kr =>
-      if k1 < k2 then k1 :: specKeys kl (k2 :: kr)
-      else if k2 < k1 then k2 :: specKeys (k1 :: kl) kr
-      else k1 :: specKeys kl kr
-
-/-- Aggregates of the union: the partial aggregates of a key present on both sides are combined,
-    all others are carried over. -/
-def specVals (op : Agg) : List Int → List Int → List Int → List Int → Except MergeErr (List Int)
-  | [], _, _, vr => .ok vr
-  | _ :: _, [], vl, _ => .ok vl
-  | k1 :: kl, k2 :: kr, v1 :: vl, v2 :: vr =>
-      if k1 < k2 then
-        match specVals op kl (k2 :: kr) vl (v2 :: vr) with
-        | .ok t => .ok (v1 :: t) | .error e => .error e
-      else if k2 < k1 then
-        match specVals op (k1 :: kl) kr (v1 :: vl) vr with
-        | .ok t => .ok (v2 :: t) | .error e => .error e
-      else
-        match combine op v1 v2 with
-        | .error e => .error e
-        | .ok v => match specVals op kl kr vl vr with
-          | .ok t => .ok (v :: t) | .error e => .error e
-  | _ :: _, _ :: _, _, _ => .error .fault
-
-def StrictAsc (l : List Int) : Prop := l.Pairwise (· < ·)
-
-theorem mergeAggLoop_left_tail (op : Agg) (l r acc : List Int) (ks : List Int) (h : ks.length = l.length) :
-    mergeAggLoop op (ks.map fun _ => MergeOp.takeLeft) l r acc = .ok (acc.reverse ++ l) := by
-  induction l generalizing acc ks with
-  | nil => cases ks <;> simp_all [mergeAggLoop]
-  | cons a l ih =>
-    cases ks with
-    | nil => simp at h
-    | cons k ks => simp at h; simp [mergeAggLoop, ih _ ks h]
-
-theorem mergeAggLoop_right_tail (op : Agg) (l r acc : List Int) (ks : List Int) (h : ks.length = r.length) :
-    mergeAggLoop op (ks.map fun _ => MergeOp.takeRight) l r acc = .ok (acc.reverse ++ r) := by
-  induction r generalizing acc ks with
-  | nil => cases ks <;> simp_all [mergeAggLoop]
-  | cons b r ih =>
-    cases ks with
-    | nil => simp at h
-    | cons k ks => simp at h; simp [mergeAggLoop, ih _ ks h]
-
-/-- Pushing a key that is smaller than everything on the right back onto the left list only
-    prepends its value. -/
-theorem specVals_cons_lt (op : Agg) (k0 v0 : Int) (kl kr vl vr : List Int)
-    (hvl : vl.length = kl.length) (hvr : vr.length = kr.length) (hlt : ∀ y ∈ kr, k0 < y) :
-    specVals op (k0 :: kl) kr (v0 :: vl) vr =
-      (match specVals op kl kr vl vr with | .ok t => .ok (v0 :: t) | .error e => .error e) := by
-  cases kr with
-  | nil =>
-    cases vr with
-    | nil =>
-      cases kl with
-      | nil =>
-        have : vl = [] := by cases vl <;> simp_all
-        subst this; simp [specVals]
-      | cons _ _ => simp [specVals]
-    | cons _ _ => simp at hvr
-  | cons b r =>
-    cases vr with
-    | nil => simp at hvr
-    | cons w vr' =>
-      have : k0 < b := hlt b (by simp)
-      simp [specVals, this]
-
-/-- Core invariant of the two loops run in lockstep: with a pending last key `k0` (already emitted,
-    value `v0` on top of the accumulator) that is below everything left and not above anything right,
-    the aggregate loop over the ops produced by merge_deduplicate computes the specification applied
-    to the inputs with the pending pair pushed back. -/
-theorem loop_pending (op : Agg) (last : Option Int) (kl kr : List Int) :
-    ∀ (k0 v0 : Int) (av vl vr : List Int), last = some k0 →
-      StrictAsc kl → StrictAsc kr → vl.length = kl.length → vr.length = kr.length →
-      (∀ y ∈ kl, k0 < y) → (∀ y ∈ kr, k0 ≤ y) →
-      mergeAggLoop op (mergeDedup false last kl kr).2 vl vr (v0 :: av) =
-        (match specVals op (k0 :: kl) kr (v0 :: vl) vr with
-          | .ok t => .ok (av.reverse ++ t) | .error e => .error e) := by
-  fun_induction mergeDedup false last kl kr with
-  | case1 x l =>
-    -- right exhausted
-    intro k0 v0 av vl vr _ _ _ hvl hvr _ _
-    have : vr = [] := by cases vr <;> simp_all
-    subst this
-    simp only []
-    rw [mergeAggLoop_left_tail op vl [] (v0 :: av) l hvl.symm]
-    simp [specVals]
-  | case2 b r =>
-    -- left exhausted, pending key equals next right key
-    intro k0 v0 av vl vr hk _ hr hvl hvr _ hle
-    have hk : k0 = b := by simp at hk; exact hk.symm
-    subst hk
-    have : vl = [] := by cases vl <;> simp_all
-    subst this
-    cases vr with
-    | nil => simp at hvr
-    | cons w vr' =>
-      simp at hvr
-      simp only [mergeAggLoop, specVals]
-      have h1 : ¬ k0 < k0 := by omega
-      simp only [h1, if_false]
-      cases hc : combine op v0 w with
-      | error e => simp
-      | ok c =>
-        simp only []
-        rw [mergeAggLoop_right_tail op [] vr' (c :: av) r hvr.symm]
-        simp [specVals]
-  | case3 last b r h =>
-    -- left exhausted, pending key below next right key
-    intro k0 v0 av vl vr hk _ hr hvl hvr _ hle
-    subst hk
-    have hne : k0 ≠ b := by intro hh; subst hh; simp at h
-    have hlt : k0 < b := by have := hle b (by simp); omega
-    have : vl = [] := by cases vl <;> simp_all
-    subst this
-    cases vr with
-    | nil => simp at hvr
-    | cons w vr' =>
-      simp at hvr
-      have := mergeAggLoop_right_tail op [] (w :: vr') (v0 :: av) (b :: r) (by simp [hvr])
-      simp only [List.map_cons] at this
-      simp only []
-      rw [this]
-      simp [specVals, hlt]
-  | case4 a l b r m o hm ih =>
-    -- both non-empty, merge right
-    intro k0 v0 av vl vr hk hl hr hvl hvr hlt hle
-    have hk : k0 = b := by simp at hk; exact hk.symm
-    subst hk
-    cases vr with
-    | nil => simp at hvr
-    | cons w vr' =>
-      cases vl with
-      | nil => simp at hvl
-      | cons v vl' =>
-        simp at hvr hvl
-        have hr' : StrictAsc r := (List.pairwise_cons.mp hr).2
-        have hbr : ∀ y ∈ r, k0 < y := (List.pairwise_cons.mp hr).1
-        simp only [mergeAggLoop, hm]
-        have h1 : ¬ k0 < k0 := by omega
-        have hspec : specVals op (k0 :: a :: l) (k0 :: r) (v0 :: v :: vl') (w :: vr') =
-            (match combine op v0 w with
-              | .error e => .error e
-              | .ok c => match specVals op (a :: l) r (v :: vl') vr' with
-                | .ok t => .ok (c :: t) | .error e => .error e) := by
-          simp only [specVals, h1, if_false]
-        rw [hspec]
-        cases hc : combine op v0 w with
-        | error e => simp
-        | ok c =>
-          simp only []
-          have ih' := ih k0 c av (v :: vl') vr' rfl hl hr' (by simp [hvl]) hvr hlt
-            (fun y hy => by have := hbr y hy; omega)
-          simp only [hm] at ih'
-          rw [ih', specVals_cons_lt op k0 c (a :: l) r (v :: vl') vr' (by simp [hvl]) hvr hbr]
-  | case5 last a l b r h hcmp m o hm ih =>
-    -- both non-empty, take left
-    intro k0 v0 av vl vr hk hl hr hvl hvr hlt hle
-    subst hk
-    have hne : k0 ≠ b := by intro hh; subst hh; simp at h
-    have hlt0 : k0 < b := by have := hle b (by simp); omega
-    have hab : a ≤ b := by simpa [cmpEq] using hcmp
-    cases vr with
-    | nil => simp at hvr
-    | cons w vr' =>
-      cases vl with
-      | nil => simp at hvl
-      | cons v vl' =>
-        simp at hvr hvl
-        have hl' : StrictAsc l := (List.pairwise_cons.mp hl).2
-        have hal : ∀ y ∈ l, a < y := (List.pairwise_cons.mp hl).1
-        have hbr : ∀ y ∈ r, b < y := (List.pairwise_cons.mp hr).1
-        simp only [mergeAggLoop, hm]
-        have ih' := ih a v (v0 :: av) vl' (w :: vr') rfl hl' hr hvl (by simp [hvr]) hal
-          (fun y hy => by
-            rcases List.mem_cons.mp hy with h1 | h1
-            · subst h1; exact hab
-            · have := hbr y h1; omega)
-        simp only [hm] at ih'
-        rw [ih']
-        have hspec : specVals op (k0 :: a :: l) (b :: r) (v0 :: v :: vl') (w :: vr') =
-            (match specVals op (a :: l) (b :: r) (v :: vl') (w :: vr') with
-              | .ok t => .ok (v0 :: t) | .error e => .error e) := by
-          simp only [specVals, hlt0, if_true]
-        rw [hspec]
-        cases specVals op (a :: l) (b :: r) (v :: vl') (w :: vr') <;> simp
-  | case6 last a l b r h hcmp m o hm ih =>
-    -- both non-empty, take right
-    intro k0 v0 av vl vr hk hl hr hvl hvr hlt hle
-    subst hk
-    have hne : k0 ≠ b := by intro hh; subst hh; simp at h
-    have hlt0 : k0 < b := by have := hle b (by simp); omega
-    have hba : b < a := by
-      have : ¬ a ≤ b := by simpa [cmpEq] using hcmp
-      omega
-    cases vr with
-    | nil => simp at hvr
-    | cons w vr' =>
-      cases vl with
-      | nil => simp at hvl
-      | cons v vl' =>
-        simp at hvr hvl
-        have hr' : StrictAsc r := (List.pairwise_cons.mp hr).2
-        have hal : ∀ y ∈ l, a < y := (List.pairwise_cons.mp hl).1
-        have hbr : ∀ y ∈ r, b < y := (List.pairwise_cons.mp hr).1
-        simp only [mergeAggLoop, hm]
-        have ih' := ih b w (v0 :: av) (v :: vl') vr' rfl hl hr' (by simp [hvl]) hvr
-          (fun y hy => by
-            rcases List.mem_cons.mp hy with h1 | h1
-            · subst h1; exact hba
-            · have := hal y h1; omega)
-          (fun y hy => by have := hbr y hy; omega)
-        simp only [hm] at ih'
-        rw [ih', specVals_cons_lt op b w (a :: l) r (v :: vl') vr' (by simp [hvl]) hvr hbr]
-        have h1 : ¬ a < b := by omega
-        have hspec : specVals op (k0 :: a :: l) (b :: r) (v0 :: v :: vl') (w :: vr') =
-            (match specVals op (a :: l) r (v :: vl') vr' with
-              | .ok t => .ok (v0 :: w :: t) | .error e => .error e) := by
-          simp only [specVals, hlt0, if_true, h1, if_false, hba]
-          cases specVals op (a :: l) r (v :: vl') vr' <;> simp
-        rw [hspec]
-        cases specVals op (a :: l) r (v :: vl') vr' <;> simp
-
-theorem specKeys_cons_lt (k0 : Int) (kl kr : List Int) (hlt : ∀ y ∈ kr, k0 < y) :
-    specKeys (k0 :: kl) kr = k0 :: specKeys kl kr := by
-  cases kr with
-  | nil => cases kl <;> simp [specKeys]
-  | cons b r => have : k0 < b := hlt b (by simp); simp [specKeys, this]
-
-/-- Key-level invariant: with pending (already emitted) key `k0`, the keys still to be emitted are
-    the union of the remaining inputs minus `k0`. -/
-theorem keys_pending (last : Option Int) (kl kr : List Int) :
-    ∀ (k0 : Int), last = some k0 → StrictAsc kl → StrictAsc kr →
-      (∀ y ∈ kl, k0 < y) → (∀ y ∈ kr, k0 ≤ y) →
-      k0 :: (mergeDedup false last kl kr).1 = specKeys (k0 :: kl) kr := by
-  fun_induction mergeDedup false last kl kr with
-  | case1 x l => intro k0 _ _ _ _ _; simp [specKeys]
-  | case2 b r =>
-    intro k0 hk _ hr _ _
-    have hk : k0 = b := by simp at hk; exact hk.symm
-    subst hk
-    have h1 : ¬ k0 < k0 := by omega
-    simp [specKeys, h1]
-  | case3 last b r h =>
-    intro k0 hk _ hr _ hle
-    subst hk
-    have hne : k0 ≠ b := by intro hh; subst hh; simp at h
-    have hlt : k0 < b := by have := hle b (by simp); omega
-    simp [specKeys, hlt]
-  | case4 a l b r m o hm ih =>
-    intro k0 hk hl hr hlt hle
-    have hk : k0 = b := by simp at hk; exact hk.symm
-    subst hk
-    have hr' : StrictAsc r := (List.pairwise_cons.mp hr).2
-    have hbr : ∀ y ∈ r, k0 < y := (List.pairwise_cons.mp hr).1
-    have h1 : ¬ k0 < k0 := by omega
-    have ih' := ih k0 rfl hl hr' hlt (fun y hy => by have := hbr y hy; omega)
-    simp only [hm] at ih'
-    simp only [specKeys, h1, if_false]
-    rw [specKeys_cons_lt k0 (a :: l) r hbr] at ih'
-    simp at ih'
-    simp [ih']
-  | case5 last a l b r h hcmp m o hm ih =>
-    intro k0 hk hl hr hlt hle
-    subst hk
-    have hne : k0 ≠ b := by intro hh; subst hh; simp at h
-    have hlt0 : k0 < b := by have := hle b (by simp); omega
-    have hab : a ≤ b := by simpa [cmpEq] using hcmp
-    have hl' : StrictAsc l := (List.pairwise_cons.mp hl).2
-    have hal : ∀ y ∈ l, a < y := (List.pairwise_cons.mp hl).1
-    have hbr : ∀ y ∈ r, b < y := (List.pairwise_cons.mp hr).1
-    have ih' := ih a rfl hl' hr hal (fun y hy => by
-      rcases List.mem_cons.mp hy with h1 | h1
-      · subst h1; exact hab
-      · have := hbr y h1; omega)
-    simp only [hm] at ih'
-    rw [specKeys_cons_lt k0 (a :: l) (b :: r) (fun y hy => by
-      rcases List.mem_cons.mp hy with h1 | h1
-      · subst h1; exact hlt0
-      · have := hbr y h1; omega)]
-    simp [hm, ih']
-  | case6 last a l b r h hcmp m o hm ih =>
-    intro k0 hk hl hr hlt hle
-    subst hk
-    have hne : k0 ≠ b := by intro hh; subst hh; simp at h
-    have hlt0 : k0 < b := by have := hle b (by simp); omega
-    have hba : b < a := by
-      have : ¬ a ≤ b := by simpa [cmpEq] using hcmp
-      omega
-    have hr' : StrictAsc r := (List.pairwise_cons.mp hr).2
-    have hal : ∀ y ∈ l, a < y := (List.pairwise_cons.mp hl).1
-    have hbr : ∀ y ∈ r, b < y := (List.pairwise_cons.mp hr).1
-    have ih' := ih b rfl hl hr' (fun y hy => by
-        rcases List.mem_cons.mp hy with h1 | h1
-        · subst h1; exact hba
-        · have := hal y h1; omega)
-      (fun y hy => by have := hbr y hy; omega)
-    simp only [hm] at ih'
-    rw [specKeys_cons_lt b (a :: l) r hbr] at ih'
-    have h1 : ¬ a < b := by omega
-    simp only [specKeys, hlt0, if_true, h1, if_false, hba]
-    simp at ih'
-    simp [ih']
-
-/-- **Groups, once each.** For strictly ascending (= duplicate-free, sorted) group keys of two
-    partial results, merge_deduplicate emits exactly the sorted union of the keys — every distinct
-    group exactly once. All lengths, all key values. -/
+/-- **Groups, once each.** For strictly ascending key lists merge_deduplicate emits exactly the sorted union. -/
 theorem C04_dedup_keys (kl kr : List Int) (hl : StrictAsc kl) (hr : StrictAsc kr) :
-    (mergeDedup false none kl kr).1 = specKeys kl kr := by
-  cases kl with
-  | nil => cases kr <;> simp [mergeDedup, specKeys]
-  | cons a l =>
-    cases kr with
-    | nil => simp [mergeDedup, specKeys]
-    | cons b r =>
-      have hal : ∀ y ∈ l, a < y := (List.pairwise_cons.mp hl).1
-      have hbr : ∀ y ∈ r, b < y := (List.pairwise_cons.mp hr).1
-      have hl' : StrictAsc l := (List.pairwise_cons.mp hl).2
-      have hr' : StrictAsc r := (List.pairwise_cons.mp hr).2
-      by_cases hab : a ≤ b
-      · have hc : cmpEq false a b = true := by simp [cmpEq, hab]
-        have := keys_pending (some a) l (b :: r) a rfl hl' hr hal (fun y hy => by
-          rcases List.mem_cons.mp hy with h1 | h1
-          · subst h1; exact hab
-          · have := hbr y h1; omega)
-        simp only [mergeDedup, hc]
-        simp
-        rw [this]
-      · have hc : ¬ cmpEq false a b = true := by simp [cmpEq, hab]
-        have hba : b < a := by omega
-        have := keys_pending (some b) (a :: l) r b rfl hl hr' (fun y hy => by
-          rcases List.mem_cons.mp hy with h1 | h1
-          · subst h1; exact hba
-          · have := hal y h1; omega) (fun y hy => by have := hbr y hy; omega)
-        simp only [mergeDedup, hc]
-        simp
-        rw [this, specKeys_cons_lt b (a :: l) r hbr]
-        have h1 : ¬ a < b := by omega
-        simp [specKeys, h1, hba]
+    (mergeDedup false none kl kr).1 = specKeys kl kr := dedup_keys kl kr hl hr
 
-/-- **Aggregates per group over all rows.** Driving merge_aggregate with the ops of merge_deduplicate
-    combines exactly the partial aggregates of equal keys and carries all others over, position by
-    position aligned with `C04_dedup_keys` — or fails with the specification's own error (overflow
-    of the exact sum). Holds for every aggregator, all lengths, all key and value contents. -/
+/-- **Aggregates per group.** merge_aggregate driven by those ops combines exactly the partial aggregates of
+    equal keys and carries all others over (or fails with the combination's own error). -/
 theorem C04_merge_aggregate_spec (op : Agg) (kl kr vl vr : List Int)
     (hl : StrictAsc kl) (hr : StrictAsc kr) (hvl : vl.length = kl.length) (hvr : vr.length = kr.length) :
-    mergeAggregate op (mergeDedup false none kl kr).2 vl vr = specVals op kl kr vl vr := by
-  cases kl with
-  | nil =>
-    have : vl = [] := by cases vl <;> simp_all
-    subst this
-    simp [mergeAggregate, specVals]
-  | cons a l =>
-    cases kr with
-    | nil =>
-      have : vr = [] := by cases vr <;> simp_all
-      subst this
-      cases vl with
-      | nil => simp at hvl
-      | cons v vl' => simp [mergeAggregate, specVals]
-    | cons b r =>
-      cases vl with
-      | nil => simp at hvl
-      | cons v vl' =>
-        cases vr with
-        | nil => simp at hvr
-        | cons w vr' =>
-          simp at hvl hvr
-          have hal : ∀ y ∈ l, a < y := (List.pairwise_cons.mp hl).1
-          have hbr : ∀ y ∈ r, b < y := (List.pairwise_cons.mp hr).1
-          have hl' : StrictAsc l := (List.pairwise_cons.mp hl).2
-          have hr' : StrictAsc r := (List.pairwise_cons.mp hr).2
-          simp only [mergeAggregate, List.isEmpty_cons, Bool.false_eq_true, if_false]
-          by_cases hab : a ≤ b
-          · have hc : cmpEq false a b = true := by simp [cmpEq, hab]
-            have := loop_pending op (some a) l (b :: r) a v [] vl' (w :: vr') rfl hl' hr hvl
-              (by simp [hvr]) hal (fun y hy => by
-                rcases List.mem_cons.mp hy with h1 | h1
-                · subst h1; exact hab
-                · have := hbr y h1; omega)
-            simp only [mergeDedup, hc]
-            simp only [if_true, reduceCtorEq, if_false, mergeAggLoop]
-            simp at this
-            simp [this]
-            cases specVals op (a :: l) (b :: r) (v :: vl') (w :: vr') <;> simp
-          · have hc : ¬ cmpEq false a b = true := by simp [cmpEq, hab]
-            have hba : b < a := by omega
-            have := loop_pending op (some b) (a :: l) r b w [] (v :: vl') vr' rfl hl hr'
-              (by simp [hvl]) hvr (fun y hy => by
-                rcases List.mem_cons.mp hy with h1 | h1
-                · subst h1; exact hba
-                · have := hal y h1; omega) (fun y hy => by have := hbr y hy; omega)
-            simp only [mergeDedup, hc]
-            simp only [reduceCtorEq, if_false, mergeAggLoop]
-            simp at this
-            rw [specVals_cons_lt op b w (a :: l) r (v :: vl') vr' (by simp [hvl]) hvr hbr] at this
-            have h1 : ¬ a < b := by omega
-            simp [this, specVals, h1, hba]
-            cases specVals op (a :: l) r (v :: vl') vr' <;> simp
+    mergeAggregate op (mergeDedup false none kl kr).2 vl vr = specVals op kl kr vl vr :=
+  merge_aggregate_spec op kl kr vl vr hl hr hvl hvr
 
-example : StrictAsc [1, 4, 9] ∧ StrictAsc [4, 5] := by simp [StrictAsc]
 example : specKeys [1, 4, 9] [4, 5] = [1, 4, 5, 9] := by simp [specKeys]
 example : specVals .sum [1, 4, 9] [4, 5] [10, 20, 30] [7, 8] = .ok [10, 27, 8, 30] := by
   simp [specVals, combine, I64_MAX, inI64, I64_MIN]
+
+/-! ### B. grouping key construction: exact widths, bit packing, NULL fusing -/
+
+/-- `bits(max)` bits hold every value of `0..=max`, for every i64 `max` (the exact integer width; the previous
+    `((max+1) as f64).log2().ceil()` was one short for `max = 2^k` with k ≥ 53 — fixed in /repo). -/
+theorem C04_bits_bound (m v : Int) (hv0 : 0 ≤ v) (hvm : v ≤ m) (hm : m ≤ I64_MAX) : v < 2 ^ bits m :=
+  lt_two_pow_bits m v hv0 hvm hm
+
+/-- **Bit-packing round trip.** For the columns planned by try_bitpacking (any number of columns, any ranges) and any
+    row whose shifted values lie within the planned bounds, unpacking the composite key with each column's
+    (shift, width) returns that column's value: distinct key tuples never collide and decode exactly. -/
+theorem C04_bitpack_roundtrip (metas : List (Option (Int × Int) × Bool)) (cols : List PackCol)
+    (hplan : planPack metas 0 = some cols) (vals : List Int) (hv : WithinMax cols vals)
+    (hm : ∀ c ∈ cols, c.adjustedMax ≤ I64_MAX) :
+    cols.map (fun c => bitUnpack1 c.shift c.width (packKey cols vals 0)) = vals := by
+  obtain ⟨hc, hw⟩ := planPack_consec metas 0 cols hplan
+  have hf := fits_of_withinMax cols vals hv hw hm
+  rw [packKey_eq cols vals 0 0 hc]
+  exact unpack_all cols vals 0 0 hc hf (by omega) (by simp)
+
+example : planPack [(some (0, 5), false), (some (-2, 1), true)] 0 =
+    some [⟨0, false, false, 0, 5, 0, 3⟩, ⟨-2, true, true, 3, 5, 3, 3⟩] := by decide
+example : packKey [⟨0, false, false, 0, 5, 0, 3⟩, ⟨-2, true, true, 3, 5, 3, 3⟩] [4, 2] 0 = 20 := by decide
+example : WithinMax [⟨0, false, false, 0, 5, 0, 3⟩, ⟨-2, true, true, 3, 5, 3, 3⟩] [4, 2] := by
+  simp [WithinMax]
+
+/-- **NULL fusing round trip** (decode of a nullable grouping key): `unfuse_int_nulls ∘ fuse_int_nulls = id` whenever
+    every shifted value is ≥ 1, which is what `offset = -min + 1` guarantees. -/
+theorem C04_fuse_unfuse_roundtrip (off : Int) (xs : List (Option Int))
+    (h : ∀ v, some v ∈ xs → 1 ≤ v + off ∧ inI64 (v + off) ∧ inI64 v) :
+    ∃ ys, fuseIntNulls off xs = .ok ys ∧ unfuseIntNulls off ys = .ok xs := fuse_unfuse off xs h
+
+example : fuseIntNulls 3 [some (-2), none, some 5] = .ok [1, 0, 8] := by
+  simp [fuseIntNulls, addI64, inI64, I64_MIN, I64_MAX, Except.map, bind, Except.bind, pure, Except.pure]
+
+/-! ### C. array aggregation: accumulate + exists + nonzero_indices + compact -/
+
+/-- **Array aggregation is correct** (any aggregator step `f` / unit `u`, any number of rows, any cardinality):
+    for raw keys ≤ `m` the group column is the ascending list of the keys that occur, each once, and the compacted
+    accumulator column holds for each of them the fold of `f` over exactly the inputs of the rows with that key. -/
+theorem C04_array_agg_correct (f : Int → Int → Int) (u : Int) (m : Nat) (rows : List (Nat × Int))
+    (h : ∀ p ∈ rows, p.1 ≤ m) :
+    ∃ acc sel, accumulate f (freshAcc m u) rows = some acc ∧
+      existsOp (List.replicate (m + 1) 0) (rows.map (·.1)) = some sel ∧
+      nonzeroIndices sel = (List.range (m + 1)).filter (fun k => k ∈ rows.map (·.1)) ∧
+      compact acc sel = ((List.range (m + 1)).filter (fun k => k ∈ rows.map (·.1))).map
+        (fun k => (groupVals k rows).foldl f u) := array_pipeline f u m rows h
+
+example : accumulate maxStep (freshAcc 3 maxUnit) [(2, 5), (0, -1), (2, 9)] =
+    some [-1, I64_MIN, 9, I64_MIN] := by decide
+example : existsOp (List.replicate 4 0) [2, 0, 2] = some [1, 0, 1, 0] := by decide
+example : compact [-1, I64_MIN, 9, I64_MIN] [1, 0, 1, 0] = [-1, 9] ∧ nonzeroIndices [1, 0, 1, 0] = [0, 2] := by decide
+
+/-- CheckedAggregate<SumI64>: when no overflow is flagged every accumulator holds the exact sum of its group
+    (so an answer is never silently wrapped). -/
+theorem C04_array_sum_checked (rows : List (Nat × Int)) (m : Nat) (h : ∀ p ∈ rows, p.1 ≤ m) :
+    ∃ acc ovf, accumulateChecked (freshAcc m 0, false) rows = some (acc, ovf) ∧
+      (ovf = false → ∀ k (hk : k < acc.length), acc[k] = (groupVals k rows).foldl (· + ·) 0) := by
+  have h1 : ∀ p ∈ rows, p.1 < (freshAcc m 0).length := by
+    intro p hp; have := h p hp; simp [freshAcc]; omega
+  obtain ⟨acc, ovf, e1, e2, e3⟩ := accumulateChecked_spec rows (freshAcc m 0) false h1
+  refine ⟨acc, ovf, e1, ?_⟩
+  intro ho k hk
+  have hk2 := hk
+  rw [e2] at hk2
+  have := (e3 ho).2 k hk2 hk
+  simpa [freshAcc] using this
+
+/-- AggregateNullable: NULL inputs are ignored — each accumulator folds exactly the present inputs of its group and
+    is marked present iff there is one. -/
+theorem C04_array_nullable (f : Int → Int → Int) (u : Int) (m : Nat) (rows : List (Nat × Option Int))
+    (h : ∀ p ∈ rows, p.1 ≤ m) :
+    ∃ acc pres, accumulateNullable f (freshAcc m u, List.replicate (m + 1) false) rows = some (acc, pres) ∧
+      ∀ k (hk : k < acc.length) (hp : k < pres.length),
+        acc[k] = (presentVals k rows).foldl f u ∧ pres[k] = !(presentVals k rows).isEmpty := by
+  have h1 : ∀ p ∈ rows, p.1 < (freshAcc m u).length := by
+    intro p hp; have := h p hp; simp [freshAcc]; omega
+  obtain ⟨acc, pres, e1, e2, e3, e4⟩ :=
+    accumulateNullable_spec f rows (freshAcc m u) (List.replicate (m + 1) false) (by simp [freshAcc]) h1
+  refine ⟨acc, pres, e1, ?_⟩
+  intro k hk hp
+  have hk2 := hk
+  rw [e2] at hk2
+  have := e4 k hk2 hk (by simpa [freshAcc] using hk2) hp
+  simpa [freshAcc] using this
+
+/-- The whole array path of one partition (`arrayPartition`: Aggregate or CheckedAggregate, Exists, NonzeroIndices,
+    Compact) yields — in the in-band encoding — exactly `xgroup`: ascending distinct keys, each once, exact aggregates. -/
+theorem C04_array_partition (op : Agg) (m : Nat) (rows : List (Nat × Int))
+    (h : ∀ p ∈ rows, p.1 ≤ m) (hv : ∀ p ∈ rows, inI64 p.2)
+    (acc : List Int) (ha : arrayAcc (toOp op) m rows = some acc) :
+    ∃ keys vals, arrayPartition (toOp op) m rows = some (keys, vals) ∧
+      (⟨[keys.map Int.ofNat], vals⟩ : Part) = encPart (xgroup op m rows) :=
+  arrayPartition_eq op m rows h hv acc ha
+
+example : arrayPartition .sum 3 [(2, 5), (0, -1), (2, 9)] = some ([0, 2], [-1, 14]) := by decide
+
+/-! ### D. any number of partitions, any merge tree -/
+
+/-- The exact union of sorted partial results is associative … -/
+theorem C04_merge_assoc (op : Agg) (A B C : XPart) (hA : XSorted A) (hB : XSorted B) (hC : XSorted C) :
+    xmerge op (xmerge op A B) C = xmerge op A (xmerge op B C) := xmerge_assoc op A B C hA hB hC
+
+/-- … hence the exact result of ANY merge tree (any bracketing, any number of leaves) is the union of its leaves
+    in order. -/
+theorem C04_merge_tree_exact (op : Agg) (parts : List XPart) (h : ∀ p ∈ parts, XSorted p) (t : Tree) :
+    xeval op parts t = xunion op (t.leaves.map fun i => parts.getD i []) := xeval_eq_xunion op parts h t
+
+/-- Aggregating the concatenation of partitions = merging their aggregates (exact level, any number). -/
+theorem C04_partition_union (op : Agg) (m : Nat) (ps : List (List (Nat × Int))) (h : ∀ r ∈ ps, ∀ p ∈ r, p.1 ≤ m) :
+    xunion op (ps.map (xgroup op m)) = xgroup op m ps.flatten := xunion_xgroup op m ps h
+
+/-- FULL STATEMENT (partition independence of the engine's in-band merge): two merge trees over the same sequence
+    of well-formed partial results give the same outcome. -/
+def C04_partition_indep_statement : Prop :=
+  ∀ (op : Agg) (parts : List XPart) (t1 t2 : Tree),
+    (∀ p ∈ parts, XSorted p ∧ InRng p) → t1.leaves = t2.leaves → (∀ i ∈ t1.leaves, i < parts.length) →
+    evalTree op (parts.map encPart) t1 = evalTree op (parts.map encPart) t2
+
+/-- PARTIAL: it holds whenever no node of either tree has a value outside i64 or equal to the sentinel i64::MAX
+    (`NodesInRng`); then both trees return the exact union of the leaves. -/
+theorem C04_partition_indep_partial (op : Agg) (parts : List XPart) (t1 t2 : Tree)
+    (hs : ∀ p ∈ parts, XSorted p) (hl : t1.leaves = t2.leaves) (hv : ∀ i ∈ t1.leaves, i < parts.length)
+    (h1 : NodesInRng op parts t1) (h2 : NodesInRng op parts t2) :
+    evalTree op (parts.map encPart) t1 = evalTree op (parts.map encPart) t2 ∧
+    evalTree op (parts.map encPart) t1 = .ok (encPart (xunion op (t1.leaves.map fun i => parts.getD i []))) := by
+  have e1 := evalTree_sim op parts hs t1 hv h1
+  have e2 := evalTree_sim op parts hs t2 (by rw [← hl]; exact hv) h2
+  rw [e1, e2, xeval_eq_xunion op parts hs t1, xeval_eq_xunion op parts hs t2, hl]
+  exact ⟨rfl, rfl⟩
+
+/-- REFUTED (finding `sum-sentinel`, DESIGN §8 #16): partial sums i64::MAX-1, 1, -5 of one group.  Left-nested the
+    first merge yields i64::MAX, which the second merge takes for NULL and drops: result -5; right-nested: i64::MAX-5. -/
+theorem C04_partition_indep_refuted : ¬ C04_partition_indep_statement := by
+  intro h
+  have := h .sum [[(0, some (I64_MAX - 1))], [(0, some 1)], [(0, some (-5))]]
+    (.node (.node (.leaf 0) (.leaf 1)) (.leaf 2)) (.node (.leaf 0) (.node (.leaf 1) (.leaf 2)))
+    (by
+      intro p hp
+      simp at hp
+      rcases hp with rfl | rfl | rfl <;> exact ⟨by simp [XSorted], by decide⟩)
+    (by decide) (by decide)
+  have e1 : evalTree .sum ([[(0, some (I64_MAX - 1))], [(0, some 1)], [(0, some (-5))]].map encPart)
+      (.node (.node (.leaf 0) (.leaf 1)) (.leaf 2)) = .ok ⟨[[0]], [-5]⟩ := by
+    simp [evalTree, mergeParts, mergeKeys, mergeDedup, mergeAggregate, mergeAggLoop, combine, cmpEq, encPart, encV,
+      I64_MAX, I64_MIN, inI64]
+  have e2 : evalTree .sum ([[(0, some (I64_MAX - 1))], [(0, some 1)], [(0, some (-5))]].map encPart)
+      (.node (.leaf 0) (.node (.leaf 1) (.leaf 2))) = .ok ⟨[[0]], [I64_MAX - 5]⟩ := by
+    simp [evalTree, mergeParts, mergeKeys, mergeDedup, mergeAggregate, mergeAggLoop, combine, cmpEq, encPart, encV,
+      I64_MAX, I64_MIN, inI64]
+  rw [e1, e2] at this
+  simp [I64_MAX] at this
+
+example : NodesInRng .sum [[(0, some 5)], [(0, some 1), (3, none)]] (.node (.leaf 0) (.leaf 1)) := by
+  have e : xeval .sum [[(0, some 5)], [(0, some 1), (3, none)]] (.node (.leaf 0) (.leaf 1)) = [(0, some 6), (3, none)] := by
+    simp [xeval, xmerge, combineExact, List.getD]
+  refine ⟨?_, ?_, ?_⟩
+  · show InRng ([[(0, some 5)], [(0, some 1), (3, none)]].getD 0 []); decide
+  · show InRng ([[(0, some 5)], [(0, some 1), (3, none)]].getD 1 []); decide
+  · rw [e]; decide
+
+/-! ### E. top level: groups of a partitioned table -/
+
+/-- FULL STATEMENT: whatever the partitioning and the merge tree, merging the array-aggregated partitions yields
+    (in-band) the exact grouped aggregation of all rows. -/
+def C04_groups_statement : Prop :=
+  ∀ (op : Agg) (m : Nat) (ps : List (List (Nat × Int))) (t : Tree),
+    (∀ r ∈ ps, ∀ p ∈ r, p.1 ≤ m ∧ inI64 p.2 ∧ p.2 ≠ I64_MAX) → (∀ i ∈ t.leaves, i < ps.length) →
+    InRng (xgroup op m ((t.leaves.map fun i => ps.getD i []).flatten)) →
+    evalTree op (ps.map fun r => encPart (xgroup op m r)) t =
+      .ok (encPart (xgroup op m ((t.leaves.map fun i => ps.getD i []).flatten)))
+
+/-- PARTIAL: **one row per distinct group, each once, aggregates over exactly the rows of the group, for every
+    partitioning and every merge tree** — provided no partial aggregate along the tree leaves i64 or hits the
+    sentinel.  (`C04_array_partition` identifies `encPart (xgroup op m r)` with the array pipeline's output.) -/
+theorem C04_groups_partial (op : Agg) (m : Nat) (ps : List (List (Nat × Int))) (t : Tree)
+    (hk : ∀ r ∈ ps, ∀ p ∈ r, p.1 ≤ m) (hl : ∀ i ∈ t.leaves, i < ps.length)
+    (hr : NodesInRng op (ps.map (xgroup op m)) t) :
+    evalTree op (ps.map fun r => encPart (xgroup op m r)) t =
+      .ok (encPart (xgroup op m ((t.leaves.map fun i => ps.getD i []).flatten))) := by
+  have hs : ∀ p ∈ ps.map (xgroup op m), XSorted p := by
+    intro p hp; simp at hp; obtain ⟨r, _, rfl⟩ := hp; exact xgroup_sorted op m r
+  have e := evalTree_sim op (ps.map (xgroup op m)) hs t (by simpa using hl) hr
+  rw [List.map_map] at e
+  rw [show (ps.map fun r => encPart (xgroup op m r)) = ps.map (encPart ∘ xgroup op m) from rfl, e,
+    xeval_eq_xunion op _ hs t]
+  congr 2
+  have hget : ∀ i, (ps.map (xgroup op m)).getD i [] = xgroup op m (ps.getD i []) := by
+    intro i
+    by_cases hi : i < ps.length
+    · simp [List.getD, hi]
+    · simp [List.getD, hi, xgroup]
+  rw [show (t.leaves.map fun i => (ps.map (xgroup op m)).getD i []) =
+        (t.leaves.map fun i => ps.getD i []).map (xgroup op m) by
+      rw [List.map_map]; apply List.map_congr_left; intro i _; exact hget i]
+  apply xunion_xgroup
+  intro r hr' p hp
+  simp at hr'
+  obtain ⟨i, _, rfl⟩ := hr'
+  by_cases hi : i < ps.length
+  · simp [hi] at hp
+    exact hk _ (List.getElem_mem hi) p hp
+  · simp [hi] at hp
+
+/-- REFUTED on the same witness (rows of one group split over three partitions; exact total i64::MAX-5). -/
+theorem C04_groups_refuted : ¬ C04_groups_statement := by
+  intro h
+  have := h .sum 0 [[(0, I64_MAX - 1)], [(0, 1)], [(0, -5)]] (.node (.node (.leaf 0) (.leaf 1)) (.leaf 2))
+    (by intro r hr p hp; simp at hr; rcases hr with rfl | rfl | rfl <;> simp at hp <;> subst hp <;> decide)
+    (by decide) (by decide)
+  have e1 : evalTree .sum ([[(0, I64_MAX - 1)], [(0, 1)], [(0, -5)]].map fun r => encPart (xgroup .sum 0 r))
+      (.node (.node (.leaf 0) (.leaf 1)) (.leaf 2)) = .ok ⟨[[0]], [-5]⟩ := by
+    have x0 : xgroup .sum 0 [(0, I64_MAX - 1)] = [(0, some (I64_MAX - 1))] := by decide
+    have x1 : xgroup .sum 0 [(0, 1)] = [(0, some 1)] := by decide
+    have x2 : xgroup .sum 0 [(0, -5)] = [(0, some (-5))] := by decide
+    simp only [List.map_cons, List.map_nil, x0, x1, x2]
+    simp [evalTree, mergeParts, mergeKeys, mergeDedup, mergeAggregate, mergeAggLoop, combine, cmpEq, encPart, encV,
+      I64_MAX, I64_MIN, inI64]
+  have e2 : xgroup .sum 0 ((((Tree.leaf 0).node (Tree.leaf 1)).node (Tree.leaf 2)).leaves.map
+      fun i => [[(0, I64_MAX - 1)], [(0, 1)], [((0 : Nat), (-5 : Int))]].getD i []).flatten = [(0, some (I64_MAX - 5))] := by
+    decide
+  rw [e1, e2] at this
+  simp [encPart, encV, I64_MAX] at this
+
+/-! ### F. the two other open findings, on the model -/
+
+/-- `groupby-null-key-order`: inside a partition the NULL group is first (raw key 0) but is emitted as i64::MAX; merged
+    with a partition that has a smaller-than-NULL key on the right, group `1` comes out twice. -/
+theorem C04_null_key_order_refuted :
+    mergeParts .count ⟨[[I64_MAX, 1]], [1, 1]⟩ ⟨[[1, 2]], [1, 1]⟩ = .ok ⟨[[1, 2, I64_MAX, 1]], [1, 1, 1, 1]⟩ := by
+  simp [mergeParts, mergeKeys, mergeDedup, mergeAggregate, mergeAggLoop, cmpEq, I64_MAX]
+
+/-- with the NULL group last (ascending in the merge order) the same data merges correctly -/
+theorem C04_null_key_order_partial (op : Agg) (A B : XPart) (sA : XSorted A) (sB : XSorted B)
+    (hA : InRng A) (hB : InRng B) (hC : InRng (xmerge op A B)) :
+    mergeParts op (encPart A) (encPart B) = .ok (encPart (xmerge op A B)) := mergeParts_sim op A B sA sB hA hB hC
+
+/-- `count-null-group`: COUNT over a nullable input through AggregateNullable leaves a group without present input
+    unmarked (→ NULL after fusing) although its count is 0. -/
+theorem C04_count_null_group_refuted :
+    accumulateNullable countStep (freshAcc 1 0, [false, false]) [(0, some 7), (1, none)] =
+      some ([1, 0], [true, false]) := by decide
 
 end LM.C04
